@@ -183,7 +183,8 @@ impl State {
             at = e.last_at;
         }
         if gap_first {
-            at += 1 + lat / 2;
+            // later segments of one write leave back-to-back: a small gap, not another latency
+            at = e.last_at.max(now + self.net.cfg.latency_min_ns) + 1 + lat % 20_000;
         }
         e.last_at = at;
         if let Item::Data(d) = &item {
